@@ -8,7 +8,8 @@ EXTENDS Manager
 CONSTANTS MaxCalls,      \* budget of tag/view API calls
           MaxViews,
           Menu,          \* which definition menu to use: "tags" | "files" | "conv"
-          Invalid        \* TRUE: also issue calls that must be rejected (C11)
+          Invalid,       \* TRUE: also issue calls that must be rejected (C11)
+          Crashes        \* TRUE: also take crash copies of the data directory (C12; no effect on the model state)
 
 VARIABLES clock, calls
 
@@ -38,9 +39,10 @@ BadDefsFor(name) ==      \* definitions that make a call invalid
     \cup (IF IsMarkName(name) THEN {Def("P", 80, <<>>, "")} ELSE {})
 
 \* ---- events: one record shape, so that behaviours can be written out as JSON ----
-Ev(a, k, name, def, ids, v) == [a |-> a, k |-> k, name |-> name, def |-> def, ids |-> ids, v |-> v, convs |-> <<>>]
+Ev(a, k, name, def, ids, v) == [a |-> a, k |-> k, name |-> name, def |-> def, ids |-> ids, v |-> v, convs |-> <<>>, what |-> "", cut |-> 0]
 E0(a) == Ev(a, 0, "", NoDef, <<>>, "")
-EvC(a, name, cs, v, k) == [a |-> a, k |-> k, name |-> name, def |-> NoDef, ids |-> <<>>, v |-> v, convs |-> cs]
+EvC(a, name, cs, v, k) == [a |-> a, k |-> k, name |-> name, def |-> NoDef, ids |-> <<>>, v |-> v, convs |-> cs, what |-> "", cut |-> 0]
+EvX(what, cut) == [a |-> "Crash", k |-> 0, name |-> "", def |-> NoDef, ids |-> <<>>, v |-> "", convs |-> <<>>, what |-> what, cut |-> cut]
 ConvLists == {<<>>} \cup {<<c>> : c \in ConvNames} \cup (IF Invalid THEN {<<"ghost">>} \cup {<<c, "ghost">> : c \in ConvNames} ELSE {})
 IdLists == {<<0>>, <<1>>, <<0, 2>>, <<7>>}
 
@@ -55,6 +57,7 @@ ApiEvents ==
     \cup {Ev(a, 0, n, NoDef, s, "") : a \in {"MarkAdd", "MarkDel"}, n \in {m \in TagNames : IsMarkName(m) \/ Invalid}, s \in IdLists}
     \cup {Ev("ViewOpen", 0, "", NoDef, <<>>, "v" \o ToString(i)) : i \in 0 .. MaxCalls}
     \cup {Ev("ViewRelease", 0, "", NoDef, <<>>, v) : v \in DOMAIN views}
+    \cup (IF Crashes THEN {EvX(w, c) : w \in {"none", "state", "idx"}, c \in {1, 7, 40, 97, 333, 1001}} ELSE {})
     \cup (IF ConvNames = {} THEN {} ELSE
              {EvC("SetConverters", n, cs, "", 0) : n \in TagNames, cs \in ConvLists}
              \cup {EvC("ConvReset", "", <<c>>, "", 0) : c \in ConvNames}
@@ -90,6 +93,7 @@ Step(e) ==
       [] e.a = "ViewOpen"      -> /\ Budget /\ Cardinality(DOMAIN views) < MaxViews
                                   /\ e.v = "v" \o ToString(calls) /\ ViewOpen(e.v) /\ Spend
       [] e.a = "ViewRelease"   -> ViewRelease(e.v) /\ Free
+      [] e.a = "Crash"         -> Budget /\ Crashes /\ UNCHANGED vars /\ Spend
       [] e.a = "SetConverters" -> Call(SetConvOK(e.name, Range(e.convs)), SetConverters(e.name, Range(e.convs)))
       [] e.a = "ConvReset"     -> Budget /\ ConvReset(e.convs[1]) /\ Spend
       [] e.a = "ViewConvert"   -> Budget /\ ViewConvert(e.v, e.k, e.convs[1]) /\ Spend
